@@ -255,6 +255,76 @@ theorem baseAssign_breaks_values :
     simp [assignSimplexPart_eq, src, orderedValues] at this
     norm_num at this
 
+/-! ## the value-level object of `BppModel/Simplex.lean` is a projection of this model
+
+The theorems of `Props/C19.lean` on objects (`construct_roundtrip`, `setFrequencies_roundtrip`,
+`invariant_all_histories_strict`, `ordered_*` …) and the models of C09 / C13 speak of `Simplex.St` /
+`Simplex.OSt`: dimension, method, ONE constraint flag, parameter values, probabilities (, ordered
+values).  The driver runs the full object model; these theorems say that every member function of
+the value-level model is the projection (`toSt`: forget cache, heap and per-parameter constraints) of
+the member function of the full model, so the correspondence check ties both. -/
+
+/-- plain objects: constructors, `fireParameterChanged`, `matchParametersValues` (all parameters),
+`setParameterValue`, `setFrequencies` -/
+theorem value_model_is_projection (a : Bool) :
+    (∀ p m, (SimplexObj.construct p m a).map (toSt a) = Simplex.construct p m a) ∧
+    (∀ n m, (SimplexObj.constructDim (α := ℝ) n m a).map (toSt a) = Simplex.constructDim n m a) ∧
+    (∀ o : Obj ℝ, toSt a o.fire = Simplex.fire (toSt a o)) ∧
+    (∀ (o : Obj ℝ) θ, HasConstraint a o → θ.length = o.params.length →
+      (o.matchReq (reqOfList θ)).map (toSt a) = Simplex.matchParams (toSt a o) θ) ∧
+    (∀ (o : Obj ℝ) i v, HasConstraint a o → (o.setOne i v).map (toSt a) = Simplex.setOne (toSt a o) i v) ∧
+    (∀ (o : Obj ℝ) p, HasConstraint a o → ValidMethod o.method → o.params.length = o.dim - 1 →
+      (pairToExcept (o.setFrequenciesBase p)).map (toSt a) = Simplex.setFrequencies (toSt a o) p) :=
+  ⟨fun p m => construct_refines p m a, fun n m => constructDim_refines n m a, fun o => toSt_fire a o,
+    fun o θ hc hl => matchReq_refines a o θ hc hl, fun o i v hc => setOne_refines a o i v hc,
+    fun o p hc hm hl => setFrequenciesBase_refines a o p hc hm hl⟩
+
+/-- ordered objects (`ProjO a o s`: `s = ⟨toSt a o, the values of o⟩`) -/
+theorem ordered_value_model_is_projection (a : Bool) :
+    (∀ n m, (∀ o, SimplexObj.oConstructDim (α := ℝ) n m a = .ok o →
+        ∃ s, Simplex.oConstructDim n m a = .ok s ∧ ProjO a o s) ∧
+      (∀ e, SimplexObj.oConstructDim (α := ℝ) n m a = .error e → Simplex.oConstructDim (α := ℝ) n m a = .error e)) ∧
+    (∀ v m, ValidMethod m →
+      (∀ o, SimplexObj.oConstruct v m a = .ok o → ∃ s, Simplex.oConstruct v m a = .ok s ∧ ProjO a o s) ∧
+      (∀ e, SimplexObj.oConstruct v m a = .error e → Simplex.oConstruct v m a = .error e)) ∧
+    (∀ (o : Obj ℝ) w θ, HasConstraint a o → θ.length = o.params.length → o.vValues = some w →
+      (∀ o', o.matchReq (reqOfList θ) = .ok o' → ∃ s', oMatchParams ⟨toSt a o, w⟩ θ = .ok s' ∧ ProjO a o' s') ∧
+      (∀ e, o.matchReq (reqOfList θ) = .error e → oMatchParams ⟨toSt a o, w⟩ θ = .error e)) ∧
+    (∀ (o : Obj ℝ) w i v, HasConstraint a o → o.vValues = some w →
+      (∀ o', o.setOne i v = .ok o' → ∃ s', Simplex.oSetOne ⟨toSt a o, w⟩ i v = .ok s' ∧ ProjO a o' s') ∧
+      (∀ e, o.setOne i v = .error e → Simplex.oSetOne ⟨toSt a o, w⟩ i v = .error e)) ∧
+    (∀ (o : Obj ℝ) w v, HasConstraint a o → ValidMethod o.method → o.params.length = o.dim - 1 →
+      o.vValues = some w →
+      (∀ o', o.oSetFrequencies v = (o', none) →
+        ∃ s', Simplex.oSetFrequencies ⟨toSt a o, w⟩ v = .ok s' ∧ ProjO a o' s') ∧
+      (∀ o' e, o.oSetFrequencies v = (o', some e) → Simplex.oSetFrequencies ⟨toSt a o, w⟩ v = .error e)) :=
+  ⟨fun n m => oConstructDim_refines n m a, fun v m hm => oConstruct_refines v m a hm,
+    fun o w θ hc hl hw => oMatchReq_refines a o w θ hc hl hw, fun o w i v hc hw => oSetOne_refines a o w i v hc hw,
+    fun o w v hc hm hl hw => oSetFrequencies_refines a o w v hc hm hl hw⟩
+
+/-! ## acceptance of arguments inside the quantifier -/
+
+/-- a request whose values lie in the open interval is accepted whatever the constraints, and the
+object then holds exactly the requested values -/
+theorem object_setParameters_ok (o : Obj ℝ) (h : OK o) (θ : List ℝ) (hl : θ.length = o.params.length)
+    (ho : InOpen θ) : ∃ o', o.matchReq (reqOfList θ) = .ok o' ∧ OK o' ∧ o'.θ = θ ∧ SameShape o o' := by
+  have hr : ReqOpen (reqOfList θ) 1 o.params.length := reqOfList_open θ _ ho
+  obtain ⟨o', e⟩ := matchReq_accepts o _ hr
+  obtain ⟨h1, _, h3⟩ := matchReq_ok o h _ (Or.inl hr) o' e
+  refine ⟨o', e, h1, ?_, h3⟩
+  rcases matchReq_gen o h.toShape _ (Or.inl hr) o' e with ⟨he, hw⟩ | ⟨_, _, _, h4⟩
+  · have := writeFrom_reqOfList o.params θ hl
+    rw [hw] at this; rw [he]; exact this
+  · simp only [Obj.θ, h4]; exact writeFrom_reqOfList o.params θ hl
+
+/-- the ordered setter with values inside the quantifier: accepted, returned unchanged -/
+theorem object_ordered_setFrequencies_roundtrip (o : Obj ℝ) (h : OK o) (v : List ℝ) (hv : ValidOrdered v)
+    (hl : v.length = o.dim) :
+    (o.oSetFrequencies v).2 = none ∧ OK (o.oSetFrequencies v).1 ∧ (o.oSetFrequencies v).1.vValues = some v ∧
+    (o.oSetFrequencies v).1.vProb = orderedToProbs v 1 := by
+  obtain ⟨c1, c2, _, c4, _, _, _, c8⟩ := oSetFrequencies_core o h.toShape h.probs v hv hl
+  exact ⟨c1, c2, c4, c8⟩
+
 /-! ## non-vacuity -/
 
 /-- an admissible history over three registers with two codings, two dimensions and both constraint
